@@ -22,6 +22,26 @@ CLAIMED = {
                 design='§6 C17', note=NOTE_COMMON + ' Element order assumed linear (NaN excluded).'),
 }
 
+CLAIMED.update({
+    'C01': dict(level='proof', technique='Lean 4 model (Sig DSL) with positional semantics + documented-formula spec in Lean, differential correspondence Go vs model and Go vs formula',
+                text='Each of the 61 Compute bodies is a Lean term whose list semantics is executed against the Go code on generated configurations and series '
+                     '(bit-for-bit agreement expected); the documented formula of each indicator is a second, independent Lean definition by position (no Skip/Shift), '
+                     'evaluated on the same inputs and compared with the Go output. Theorems: generic soundness of the positional semantics (Sig.sound) and per-indicator '
+                     'alignment; formula-equality theorems are added indicator by indicator (listed in the evidence); where none exists yet the indicator is '
+                     'covered by correspondence + formula oracle only. Known deviations (Apo, Dema, Emv, Fi, Obv, UlcerIndex, Aroon, Tsi) are recorded findings.',
+                design='§6 C01', note=NOTE_COMMON + ' The formulas in Spec/Indicators.lean are my reading of the doc comments; theorems are over the reals, rounding is bounded by a 1e-9 tolerance comparison.'),
+    'C02': dict(level='proof', technique='Lean 4 proof: alignment typing of every Compute body (77 theorems, all admissible periods) + generic soundness theorem; correspondence on lengths',
+                text='For every indicator and all admissible periods Lean proves that every output is well aligned at the declared idle period; with the generic soundness theorem this '
+                     'gives exactly n - idle values on every output for every n, the k-th being the value for position k+idle. The model is tied to Go by running both; '
+                     'Go output counts and IdlePeriod() are checked against n - idle on dense sweeps of n in [0, 2w+2].',
+                design='§6 C02', note=NOTE_COMMON),
+    'C04': dict(level='proof', technique='Lean 4 proof: causality of the positional semantics (den_causal) + alignment => prefix law and independence of later inputs for every indicator; Go-vs-Go prefix/suffix relation',
+                text='Generic theorem: the value for position i depends only on input positions <= i; with alignment this yields, for all 61 indicators and all admissible periods, '
+                     'that a run on a prefix is the prefix of the run and that later inputs never change earlier outputs. Go is tied to the model by correspondence, and the relation itself '
+                     'is checked Go-vs-Go bit-exactly on prefixes and suffix rewrites.',
+                design='§6 C04', note=NOTE_COMMON + ' Strategies are covered when C05/C07 are claimed.'),
+})
+
 PENDING = {}
 
 def main():
